@@ -173,16 +173,36 @@ func c13Step(ctx *Ctx, lane string, in *Inst, ro map[string]bool, argv []string,
 	}
 	now := in.Clk.NowNs()
 	before := CanonDump(in.S.VerifDump(), now)
+	name := strings.ToLower(argv[0])
+	// observational purity: what ordered readers reply for the named keys before a read-only command they
+	// must reply after it (derived state such as an order cache is not in the dump, but clients see it)
+	var obsBefore []string
+	if ro[name] {
+		obsBefore = c13Observe(in, before, argv)
+	}
 	v, _, crash := in.Do(argv...)
 	if crash != "" {
 		ctx.Count("steps_crashed", 1)
 		return false
 	}
-	name := strings.ToLower(argv[0])
 	if !(ro[name] || v.IsError()) {
 		return true
 	}
 	after := CanonDump(in.S.VerifDump(), now)
+	if ro[name] && len(obsBefore) > 0 {
+		obsAfter := c13Observe(in, before, argv)
+		for i := range obsBefore {
+			if i < len(obsAfter) && obsBefore[i] != obsAfter[i] {
+				full := append(append([]Step{}, trace...), Step{Argv: argv})
+				ctx.Violate(Violation{Kind: "impure_observed", Lane: lane,
+					What: fmt.Sprintf("read-only command %s (replied %s) changed what a later reader sees although the dumped dataset is the same: before %s, after %s", Step{Argv: argv}.String(), trunc(v.String(), 60), trunc(obsBefore[i], 200), trunc(obsAfter[i], 200)),
+					Case: map[string]interface{}{"program": full, "program_text": progStrings(full)},
+					Key:  fmt.Sprintf("c13|observed|%s", name)})
+				break
+			}
+		}
+		ctx.Count("observer_comparisons", int64(len(obsBefore)))
+	}
 	ctx.Eval(1)
 	kind := "read-only"
 	if !ro[name] {
@@ -276,4 +296,50 @@ func c13Alias(ctx *Ctx, in *Inst, argv []string, trace []Step, r *rand.Rand) {
 			return
 		}
 	}
+}
+
+// c13Observe runs order-sensitive readers on the sorted sets and lists among the keys argv names (in the
+// database the embedded caller is on) and returns "<command> -> <reply>" lines.
+func c13Observe(in *Inst, dump map[int]map[string]string, argv []string) []string {
+	db := in.S.VerifEmbeddedDatabase()
+	var out []string
+	seen := map[string]bool{}
+	for _, a := range argv[1:] {
+		e, ok := dump[db][a]
+		if !ok || seen[a] || len(e) == 0 {
+			continue
+		}
+		seen[a] = true
+		var readers [][]string
+		switch e[0] {
+		case 'z':
+			readers = [][]string{{"ZRANGE", a, "0", "-1", "WITHSCORES"}, {"ZRANGE", a, "-inf", "+inf", "BYSCORE"}, {"ZRANGE", a, "0", "-1", "REV"}, {"ZRANGE", a, "0", "0"}, {"ZRANK", a, zsetFirstMember(e)}, {"ZCARD", a}}
+		case 'l':
+			readers = [][]string{{"LRANGE", a, "0", "-1"}, {"LINDEX", a, "0"}, {"LINDEX", a, "-1"}, {"LLEN", a}}
+		default:
+			continue
+		}
+		for _, rd := range readers {
+			v, _, crash := in.Do(rd...)
+			out = append(out, Step{Argv: rd}.String()+" -> "+v.String()+crash)
+		}
+		if len(seen) >= 2 {
+			break
+		}
+	}
+	return out
+}
+
+// zsetFirstMember extracts some member name from the canonical rendering z:{"m"=score,...} (or "x").
+func zsetFirstMember(canon string) string {
+	i := strings.Index(canon, "{\"")
+	if i < 0 {
+		return "x"
+	}
+	rest := canon[i+2:]
+	j := strings.Index(rest, "\"=")
+	if j < 0 {
+		return "x"
+	}
+	return rest[:j]
 }
